@@ -43,6 +43,10 @@ func H_C12_timeheap() {
 			sum += e.count
 		}
 		verifrt.Assert(h.total == sum, "TimeHeap: running total differs from the sum of the entries that were added and not cleared/expired")
+		// representation invariant: the oldest entry is at the root (what the expiry loop of AveragePerSecond relies on)
+		for j := 1; j < len(h.heap); j++ {
+			verifrt.Assert(!h.heap.Less(j, (j-1)/2), "TimeHeap: heap order violated (an entry is older than its parent, so expiry can miss it)")
+		}
 	}
 }
 
